@@ -91,7 +91,16 @@ def _end(api, e):
     api.rec2.emit(dict(ev="WalkEnd", sid=api.sid, exc=name, bases=bases))
 
 
-def walk_sync(api, op, base_text, maxrep=None, honest=False, mib=None, limit=200, fetch=False):
+STYLES = ["next", "for", "peek-for", "islice"]
+
+
+def _reiter(style, n):
+    """how callers consume a walk: next() only; a for loop (iter() once); a first row by next() and the rest in a for loop (iter() after
+    one row); paging with islice (iter() before every page of two rows).  iter() / aiter() of a walk returns the walk where it is."""
+    return (style == "for" and n == 0) or (style == "peek-for" and n == 1) or (style == "islice" and n % 2 == 0)
+
+
+def walk_sync(api, op, base_text, maxrep=None, honest=False, mib=None, limit=200, fetch=False, style="next"):
     """op: 'getnext' | 'getbulk'; fetch=True uses session.fetch() (the op actually used must then equal `op`)."""
     _start(api, op, base_text, maxrep, honest, mib)
     s = api.session
@@ -105,6 +114,8 @@ def walk_sync(api, op, base_text, maxrep=None, honest=False, mib=None, limit=200
     n = 0
     while True:
         try:
+            if _reiter(style, n):
+                it = iter(it)
             pair = next(it)
         except BaseException as e:  # noqa - StopIteration, TimeoutError, SnmpError, PanicException: all data
             _end(api, e)
@@ -119,7 +130,7 @@ def walk_sync(api, op, base_text, maxrep=None, honest=False, mib=None, limit=200
     return out
 
 
-async def walk_async(api, op, base_text, maxrep=None, honest=False, mib=None, limit=200, fetch=False):
+async def walk_async(api, op, base_text, maxrep=None, honest=False, mib=None, limit=200, fetch=False, style="next"):
     _start(api, op, base_text, maxrep, honest, mib)
     s = api.session
     try:
@@ -133,6 +144,8 @@ async def walk_async(api, op, base_text, maxrep=None, honest=False, mib=None, li
     n = 0
     while True:
         try:
+            if _reiter(style, n) and n > 0:
+                ai = ai.__aiter__()
             pair = await ai.__anext__()
         except BaseException as e:  # noqa
             if type(e).__name__ == "TimeoutError":
